@@ -2,14 +2,46 @@ import Gws.Generated.Trans
 import Gws.Lemmas.Trans
 import Gws.Model.Close
 /-!
-# T3 — the status classification of `emitClose` (conn.go), translated from the source on every run,
-equals `Close.classify` (the function the C06 reply table is proved about).
+# T3 — the Close handling of conn.go / writer.go, translated from the source on every run, equals the model
+
+* `emitClose` up to the closed-flag CAS (status reported, reason, status answered) = `Close.emitClose`
+  (the function the C06 reply table and the C16 close-reason clause are proved about);
+* `WriteClose` + `writeClose` (status raised to 1000, reason appended, body cut to 125) = `Close.localCloseBody`;
+* `closeViaWrite` = `Close.viaWriteSplit`;
+* `StatusCode.Bytes`, `internal.CheckEncoding` = `Close.statusBytes`, `Utf8.checkEncoding`.
 -/
 namespace TransEquiv
 
-theorem emitClose_classify_eq (wire rc0 : UInt16) :
-    Trans.Conn_emitClose_classify wire rc0 = .ok (UInt16.ofNat (Close.classify wire.toNat), wire) := by
-  unfold Trans.Conn_emitClose_classify Close.classify
+theorem CheckEncoding_eq (enabled : Bool) (opcode : UInt8) (p : Bytes) :
+    Trans.internal_CheckEncoding enabled opcode p = Utf8.checkEncoding enabled opcode.toNat p := by
+  unfold Trans.internal_CheckEncoding Utf8.checkEncoding goUtf8Valid
+  simp only [u8_beq]
+  cases enabled <;> simp
+
+theorem StatusCode_Bytes_eq (c : UInt16) : Trans.StatusCode_Bytes c = Close.statusBytes c.toNat := by
+  unfold Trans.StatusCode_Bytes Close.statusBytes
+  have h0 : (c == (0 : UInt16)) = decide (c.toNat = 0) := by rw [u16_beq]; rfl
+  rw [h0]
+  by_cases h : c.toNat = 0
+  · simp [h]
+  · simp only [h, decide_false, Bool.false_eq_true, ↓reduceIte, List.cons.injEq, and_true]
+    constructor
+    · apply UInt8.toNat_inj.mp
+      have := c.toNat_lt
+      simp [UInt16.toNat_shiftRight]
+      omega
+    · apply UInt8.toNat_inj.mp
+      have := c.toNat_lt
+      simp [UInt16.toNat_shiftRight, UInt16.toNat_shiftLeft]
+      omega
+
+/-- the classification of a 16-bit status, as `emitClose` spells it -/
+theorem classify_u16 (wire : UInt16) :
+    (if ((((wire == (1004 : UInt16)) || (wire == (1005 : UInt16))) || (wire == (1006 : UInt16))) || (wire == (1015 : UInt16))) then (1002 : UInt16)
+     else if (((decide (wire < (1000 : UInt16))) || (decide (wire ≥ (5000 : UInt16)))) || (((decide (wire ≥ (1016 : UInt16))) && (decide (wire < (3000 : UInt16)))))) then (1002 : UInt16)
+     else if (decide (wire < (1016 : UInt16))) then (1000 : UInt16) else wire)
+      = UInt16.ofNat (Close.classify wire.toNat) := by
+  unfold Close.classify
   simp only [Facts.closeListed1002, Facts.closeProtocolError, Facts.closeBelow1002, Facts.closeFrom1002, Facts.closeResLo1002,
     Facts.closeResHi1002, Facts.closeNormalBelow, Facts.closeNormalClosure, UInt16.lt_iff_toNat_lt, UInt16.le_iff_toNat_le, ge_iff_le, u16_beq]
   have hw : UInt16.ofNat wire.toNat = wire := by simp
@@ -18,7 +50,73 @@ theorem emitClose_classify_eq (wire rc0 : UInt16) :
   repeat' split
   all_goals first | rfl | (exfalso; omega) | (simp [*]; done) | (simp [*]; exact hw.symm)
 
-example : Trans.Conn_emitClose_classify 1014 0 = .ok (1000, 1014) ∧ Trans.Conn_emitClose_classify 1005 0 = .ok (1002, 1005)
-    ∧ Trans.Conn_emitClose_classify 3999 0 = .ok (3999, 3999) := ⟨rfl, rfl, rfl⟩
+
+/-- `emitClose` before the CAS = `Close.emitClose`: the reason left in the buffer, the status answered, the status reported -/
+theorem emitClose_body_eq (checkUtf8 : Bool) (body : Bytes) :
+    Trans.Conn_emitClose_body checkUtf8 body =
+      .ok ((Close.emitClose checkUtf8 body).reason, UInt16.ofNat (Close.emitClose checkUtf8 body).response,
+           UInt16.ofNat (Close.emitClose checkUtf8 body).realCode) := by
+  unfold Trans.Conn_emitClose_body
+  match body with
+  | [] => simp [Close.emitClose]
+  | [x] =>
+    simp [Close.emitClose, goIdx, Facts.closeProtocolError]
+  | a :: b :: reason =>
+    have hlen0 : ((Int.ofNat (a :: b :: reason).length) == (0 : Int)) = false := by
+      first | (simp; done) | (simp; omega)
+    have hlen1 : ((Int.ofNat (a :: b :: reason).length) == (1 : Int)) = false := by
+      first | (simp; done) | (simp; omega)
+    simp only [hlen0, hlen1, Bool.false_eq_true, ↓reduceIte]
+    have hk : Nat.min (a :: b :: reason).length ((List.replicate 2 (0 : UInt8)).length - ((0 : Int)).toNat) = 2 := by
+      first | (simp; done) | (simp; omega)
+    simp only [hk]
+    have hb : goCopy (List.replicate 2 (0 : UInt8)) 0 ((a :: b :: reason).take 2) = [a, b] := by
+      simp [goCopy]
+    simp only [Int.toNat_zero, hb, List.drop_succ_cons, List.drop_zero]
+    have hw : goU16BE [a, b] = UInt16.ofNat (Frame.be16 a b) := by simp [goU16BE, goIdx, Frame.be16]
+    have hwn : (goU16BE [a, b]).toNat = Frame.be16 a b := by
+      rw [hw]; have := a.toNat_lt; have := b.toNat_lt; simp [Frame.be16]; omega
+    rw [classify_u16, CheckEncoding_eq, hwn]
+    simp only [Close.emitClose, Facts.opClose, Facts.closeUnsupportedData]
+    have h8 : (8 : UInt8).toNat = 8 := rfl
+    rw [h8, hw]
+    by_cases hce : Utf8.checkEncoding checkUtf8 8 reason = true <;> simp [hce]
+
+/-- a locally requested close: `WriteClose` builds status ++ reason with the status raised to 1000, `writeClose` cuts the
+body to the control-frame limit: together the model's `Close.localCloseBody` -/
+theorem local_close_body_eq (code : UInt16) (reason : Bytes) :
+    (Trans.Conn_WriteClose_body code reason >>= fun r => Trans.Conn_writeClose_cut r.2)
+      = .ok (Close.localCloseBody code.toNat reason) := by
+  unfold Trans.Conn_WriteClose_body Trans.Conn_writeClose_cut Close.localCloseBody Close.cutBody
+  simp only [bind, Except.bind, List.nil_append, StatusCode_Bytes_eq, UInt16.lt_iff_toNat_lt, Facts.localCloseMinCode,
+    Facts.localCloseRaisedTo, Facts.closeBodyCut]
+  have e1000 : (1000 : UInt16).toNat = 1000 := rfl
+  by_cases h : code.toNat < 1000
+  · simp [h, e1000]
+    split <;> split <;> first | rfl | (exfalso; omega)
+  · simp [h, e1000]
+    split <;> split <;> first | rfl | (exfalso; omega)
+
+/-- `closeViaWrite` splits the payload as `Close.viaWriteSplit` -/
+theorem closeViaWrite_split_eq (body : Bytes) :
+    Trans.Conn_closeViaWrite_split body =
+      .ok (UInt16.ofNat (Close.viaWriteSplit body).1, (Close.viaWriteSplit body).2) := by
+  unfold Trans.Conn_closeViaWrite_split Close.viaWriteSplit Trans.StatusCode_Uint16
+  match body with
+  | [] => simp [Facts.closeNormalClosure]
+  | [x] => simp [Facts.closeNormalClosure]
+  | a :: b :: r =>
+    have : (2 : Int) ≤ ↑r.length + 1 + 1 := by omega
+    simp [this, goU16BE, goIdx, Frame.be16]
+
+/-! ## non-vacuity: the translated code on concrete inputs -/
+
+deriving instance DecidableEq for Except
+
+example : Trans.Conn_emitClose_body true [0x03, 0xf6] = .ok ([], 1000, 1014) := by decide +kernel
+example : Trans.Conn_emitClose_body true [0x03, 0xed, 0x41] = .ok ([0x41], 1002, 1005) := by decide +kernel
+example : Trans.Conn_emitClose_body true [0x03, 0xe8, 0xff] = .ok ([0xff], 1007, 1000) := by decide +kernel
+example : Trans.Conn_emitClose_body false [0x7] = .ok ([], 1002, 7) := by decide +kernel
+example : (Trans.Conn_WriteClose_body 999 [0x41] >>= fun r => Trans.Conn_writeClose_cut r.2) = .ok [0x03, 0xe8, 0x41] := by decide +kernel
 
 end TransEquiv
